@@ -993,6 +993,7 @@ func checkC19(c *Ctx) {
 				add(scn.Fault{Kind: "garbage", K: k, Class: "short-value2"})
 			}
 			add(scn.Fault{Kind: "garbage", K: k, Class: fmt.Sprint("inner-len:", []int{1, 2, 7, 40, 100}[(k+i)%5])})
+			add(scn.Fault{Kind: "garbage", K: k, Class: "frag0"})
 			add(scn.Fault{Kind: "garbage", K: k, Class: fmt.Sprint("long:", []int{2048, 4096, 2047, 2049, 6144, 65535, 131070}[(k+i)%7])})
 			if c.Tier == "thorough" {
 				add(scn.Fault{Kind: "garbage", K: k, Class: "long:2048"})
